@@ -134,6 +134,9 @@ def set_limits_default(h):
 def _limits_variant(h, cls, iterscale, evalscale):
     """the solver-specific defaults: limit = nDim * nPop * scale (+ the current count for '*')"""
     s, stepmon, fc, epoch = _mk(h, cls=cls)
+    if cls.endswith('NelderMeadSimplexSolver'):
+        # the simplex has nDim + 1 vertices although nPop is 1: the default budget is nDim * nPop * scale = N * 200, scipy's
+        h.set_field(s, 'population', h.clist([h.vec('v0', 2), h.vec('v1', 2), h.vec('v2', 2)]))
     mi, mf = h.field(s, '_maxiter'), h.field(s, '_maxfun')
     gens = h.ev('max(0, n - 1)', n=h.len(h.field(stepmon, '_x')))
     h.call(h.getattr(s, '_SetEvaluationLimits'))
@@ -145,7 +148,7 @@ def _limits_variant(h, cls, iterscale, evalscale):
 
 
 SOF = 'mystic/scipy_optimize.py::'
-contract('C05/NelderMead._SetEvaluationLimits', ['C05'], SOF + 'NelderMeadSimplexSolver._SetEvaluationLimits')(
+contract('C05/NelderMead._SetEvaluationLimits', ['C05', 'C08'], SOF + 'NelderMeadSimplexSolver._SetEvaluationLimits')(
     lambda h: _limits_variant(h, SOF + 'NelderMeadSimplexSolver', 200, 200))
 
 
